@@ -37,7 +37,7 @@ Fixpoint outcome (sc : list resp) (bud : N) : pres :=
       | QNet => PNext
       | QStatus c =>
           if c =? 202 then (if bud =? 0 then PNext else outcome sc' (bud - 1))
-          else if c <? 500 then PDone false else PNext
+          else if c <? final_below then PDone false else PNext
       end
   end.
 Definition o_outcome (x : origin) : pres := outcome (o_script x) (o_budget x).
@@ -50,6 +50,9 @@ Fixpoint first_final (os : list origin) : option bool :=
   end.
 
 (* ------------------------------------------------------------------ small facts *)
+
+Lemma final_below_val : final_below = 500.
+Proof. reflexivity. Qed.
 
 Lemma is200_eq r : is200 r = true <-> r = RCode 200.
 Proof.
@@ -83,7 +86,7 @@ Lemma poll_origin_outcome d o sc bud : snd (poll_origin d o sc bud) = outcome sc
 Proof.
   revert bud. induction sc as [|r sc IH]; intros bud; cbn [poll_origin outcome]; [reflexivity|].
   destruct (classify r) as [| |c]; try reflexivity.
-  destruct (c =? 202); [|destruct (c <? 500); reflexivity].
+  destruct (c =? 202); [|destruct (c <? final_below); reflexivity].
   destruct (bud =? 0); [reflexivity|].
   specialize (IH (bud - 1)). destruct (poll_origin d o sc (bud - 1)). exact IH.
 Qed.
@@ -102,7 +105,7 @@ Proof.
         -- intros [<-|[]]. eexists. reflexivity.
         -- specialize (IH (bud - 1)). destruct (poll_origin d o sc (bud - 1)) as [t p].
            cbn [fst] in *. intros [<-|H]; [eexists; reflexivity|]. apply IH. exact H.
-      * destruct (c <? 500); intros [<-|[]]; eexists; reflexivity.
+      * destruct (c <? final_below); intros [<-|[]]; eexists; reflexivity.
 Qed.
 
 (* success of one origin: exactly n <= budget answers 202, then 200 *)
@@ -125,7 +128,7 @@ Proof.
         exists (n + 1), rest. unfold ok_run.
         replace (N.to_nat (n + 1)) with (S (N.to_nat n)) by lia. cbn [repeat app].
         split; [reflexivity|]. split; [lia|reflexivity].
-      * destruct (c <? 500); discriminate.
+      * destruct (c <? final_below); discriminate.
 Qed.
 
 (* an origin that does not succeed never says 200 *)
@@ -145,7 +148,7 @@ Proof.
         -- intros H _ x. inversion H. intros [<-|[]]. exact N200.
         -- destruct (poll_origin d o sc (bud - 1)) as [t' p'] eqn:P. intros H Hp x. inversion H. subst.
            intros [<-|Hx]; [exact N200|]. exact (IH _ _ _ P Hp x Hx).
-      * destruct (c <? 500); intros H _ x; inversion H; intros [<-|[]]; exact N200.
+      * destruct (c <? final_below); intros H _ x; inversion H; intros [<-|[]]; exact N200.
 Qed.
 
 (* at most budget + 1 requests per origin *)
@@ -155,7 +158,7 @@ Proof.
   revert bud. induction sc as [|r sc IH]; intros bud; cbn [poll_origin].
   - cbn. lia.
   - destruct (classify r) as [| |c]; try (cbn; lia).
-    destruct (c =? 202); [|destruct (c <? 500); cbn; lia].
+    destruct (c =? 202); [|destruct (c <? final_below); cbn; lia].
     destruct (bud =? 0) eqn:B; [cbn; lia|]. apply N.eqb_neq in B.
     specialize (IH (bud - 1)). destruct (poll_origin d o sc (bud - 1)) as [t p]. cbn [fst length] in *. lia.
 Qed.
@@ -273,7 +276,7 @@ Proof.
   revert bud. induction sc as [|r sc IH]; intros bud; cbn [poll_origin].
   - cbn. lia.
   - destruct (classify r) as [| |c]; try (cbn; lia).
-    destruct (c =? 202); [|destruct (c <? 500); cbn; lia].
+    destruct (c =? 202); [|destruct (c <? final_below); cbn; lia].
     destruct (bud =? 0); [cbn; lia|].
     specialize (IH (bud - 1)). destruct (poll_origin d o sc (bud - 1)) as [t p]. cbn [fst] in *.
     cbn. split; [lia|assumption].
@@ -558,10 +561,10 @@ Lemma outcome_next sc bud :
     match skipn (N.to_nat n) sc with
     | [] => True                                  (* the origin is gone *)
     | RNet :: _ => True                           (* no response *)
-    | RCode c :: _ => 500 <= c \/ (c = 202 /\ n = bud)   (* server error, or one 202 too many *)
+    | RCode c :: _ => final_below <= c \/ (c = 202 /\ n = bud)   (* server error, or one 202 too many *)
     end.
 Proof.
-  revert bud. induction sc as [|r sc IH]; intros bud; cbn [outcome].
+  pose proof final_below_val as FB. revert bud. induction sc as [|r sc IH]; intros bud; cbn [outcome].
   - split; [|reflexivity]. intros _. exists 0. cbn. split; [lia|]. split; reflexivity || exact I.
   - destruct r as [|c]; cbn [classify].
     + split; [|reflexivity]. intros _. exists 0. cbn. split; [lia|]. split; reflexivity || exact I.
@@ -585,7 +588,7 @@ Proof.
               split; [lia|]. split; [injection Hf as Hf; exact Hf|].
               destruct (skipn m sc) as [|[|c] ?]; try exact I.
               destruct Hs as [Hs|[Hs Hb]]; [left; exact Hs|right; split; [exact Hs|lia]].
-      * apply N.eqb_neq in E202. destruct (c <? 500) eqn:L.
+      * apply N.eqb_neq in E202. destruct (c <? final_below) eqn:L.
         -- apply N.ltb_lt in L. split; [discriminate|]. intros [n [Hn [Hf Hs]]].
            destruct (N.to_nat n) eqn:En; cbn in Hf, Hs.
            ++ destruct Hs as [Hs|[Hs _]]; lia.
@@ -840,7 +843,7 @@ Fixpoint poll_fn (d o : N) (f : nat -> resp) (i : nat) (bud : nat) : list ev * p
         | O => ([ERepl d o (f i)], PNext)
         | S b => let '(t, p) := poll_fn d o f (S i) b in (ERepl d o (f i) :: t, p)
         end
-      else if c <? 500 then ([ERepl d o (f i)], PDone false)
+      else if c <? final_below then ([ERepl d o (f i)], PDone false)
       else ([ERepl d o (f i)], PNext)
   end.
 
